@@ -91,9 +91,10 @@ fn describe_ops(ops: &[GOp]) -> String {
 }
 
 /// run one op sequence against the real collector and the model; Err(description) on disagreement
-fn run_driver(ops: &[GOp], st: &mut Stats, which: Which) -> Result<(), (String, String)> {
+fn run_driver(ops: &[GOp], st: &mut Stats, which: Which, real_frees: bool) -> Result<(), (String, String)> {
     verif::reset_all();
-    verif::set_shadow(ShadowMode::Quarantine);
+    // under a sanitizer the boxes are really released (ledger only), so that it sees what the collector touches
+    verif::set_shadow(if real_frees { ShadowMode::Ledger } else { ShadowMode::Quarantine });
     verif::set_stop_on_event(false);
     verif::set_probes(true);
     heapmon::install();
@@ -210,7 +211,8 @@ fn run_driver(ops: &[GOp], st: &mut Stats, which: Which) -> Result<(), (String, 
                     }
                     // compare with the ledger
                     for (i, o) in objs.iter().enumerate() {
-                        let live = verif::is_live(verif::addr(o.obj));
+                        // (in ledger mode a released box has no entry any more)
+                        let live = verif::is_live(verif::addr(o.obj)).or(Some(false));
                         if o.alive && live != Some(true) {
                             failure = Some(("driver:reachable-or-unmanaged-object-released".to_string(), format!("after step {} ({:?}) object #{} should be allocated but is released", step, op, i)));
                             return;
@@ -539,7 +541,8 @@ impl Check for Heap {
                 if i % 4999 == 0 {
                     st.sample(&format!("[collector driver] {}", text));
                 }
-                if let Err((sig, detail)) = run_driver(&ops, st, self.which) {
+                let real_frees = matches!(ctx.flavour, Flavour::Asan | Flavour::Miri);
+                if let Err((sig, detail)) = run_driver(&ops, st, self.which, real_frees) {
                     st.violation(&sig, detail, &text);
                 }
                 let (c, cl, _, _, ft, _) = heapmon::take_counters();
